@@ -6,6 +6,7 @@ from .panics import panic_sites, discharge_panic
 from .schema import Obl, elem_access, store_elem, region_of_container
 from .mem import rowmajor, bounded
 from .report import span_s
+from .origin import payload_of
 
 REPR = ("graaf::repr::adjacency_list::AdjacencyList", "graaf::repr::adjacency_map::AdjacencyMap",
         "graaf::repr::adjacency_matrix::AdjacencyMatrix", "graaf::repr::edge_list::EdgeList",
@@ -88,6 +89,21 @@ class WriteSite:
         self.__dict__.update(kw)
 
 
+def _guarded_flip(fx, b, v):
+    """v = old ^ m with m = 1 << k: "clear" when `old & m != 0` is known at block b, "set" when `old & m == 0` is"""
+    x, y = v[2], v[3]
+    for m, old in ((x, y), (y, x)):
+        if not (m[0] == "bin" and m[1] == "Shl" and m[2] == ("const", "usize", 1)):
+            continue
+        ands = [("bin", "BitAnd", m, old), ("bin", "BitAnd", old, m)]
+        zero = ("const", "usize", 0)
+        if fx.holds(b, lambda rel: any(rel.has(mk_ne(a, zero)) or rel.eq(a, m) for a in ands)):
+            return "clear"
+        if fx.holds(b, lambda rel: any(rel.eq(a, zero) for a in ands)):
+            return "set"
+    return None
+
+
 def write_sites(crate, an):
     """mutation sites of a `&mut self` body: insertion / removal / toggling of arcs"""
     fx = crate.fx(an.path)
@@ -116,6 +132,13 @@ def write_sites(crate, an):
             if v[0] == "bin" and v[1] in ("BitOr", "BitXor", "BitAnd"):
                 op = {"BitOr": "|=", "BitXor": "^=", "BitAnd": "&="}[v[1]]
             kind = "insert" if op == "|=" else "toggle" if op == "^=" else "remove" if op == "&=" else "assign"
+            if op == "^=":
+                # `if w & m != 0 { w ^= m }` with a single-bit mask m clears the bit; `if w & m == 0 { w ^= m }` sets it
+                k2 = _guarded_flip(fx, ev["b"], v)
+                if k2 == "clear":
+                    kind, op = "remove", "^=-of-set-bit"
+                elif k2 == "set":
+                    kind, op = "insert", "|="
             out.append(WriteSite(kind, ev["b"], ev["span"], ev=ev, op=op, root=ev["region"]))
     # writes performed by closures of this body on their parameters (Option::is_some_and(|set| set.remove(..)))
     for cp in crate.prog.children.get(an.path, []):
@@ -481,10 +504,171 @@ def rule_bits(crate, prop, tier):
                     if m[0] == "bin" and m[1] == "Shl" and m[2][0] == "const" and m[2][2] == 1 and \
                             m[3] in (("bin", "BitAnd", i, ("const", "usize", 63)), ("bin", "BitAnd", ("const", "usize", 63), i)):
                         ok = True
+            if not ok:
+                ok = _word_or_under_equal_orders(crate, an, ev, R, idx)
             o.check(ok, crate.prog.pretty[p], "bit-read-modify-write", "a word of the bit matrix is written other than by setting, flipping "
                     "or clearing the bit of one cell (i >> 6, 1 << (i & 63))", ev["span"])
-    o.instances = n
-    return o.report(floors={"bit-matrix writes": (n, 3)})
+        # writes through the items of a mutable iteration over the words
+        fx = None
+        for ev in an.events:
+            if ev["k"] != "store" or "addr" not in ev or ev["addr"] is None:
+                continue
+            site, path = payload_of(ev["addr"])
+            if site is None:
+                continue
+            fx = fx or crate.fx(p)
+            nev = fx.an_call_at(site[1])
+            if nev is None or nev["key"] != "core::iter::traits::iterator::Iterator::next":
+                continue
+            d = fx.iter_desc(nev)
+            if not d or d == "CYCLE" or not _iterates_blocks_mut(an, d, AM):
+                continue
+            n += 1
+            o.check(_zip_word_or(an, fx, ev, d, path, AM), crate.prog.pretty[p], "bit-read-modify-write",
+                    "whole words of the bit matrix are written through a mutable iteration (only sound as `a |= b` on the same word of "
+                    "two matrices of equal order, under a check that the orders are equal)", ev["span"])
+    # reads: a word of `blocks` masked with single-bit masks reads one cell: blocks[i >> 6] & (1 << (i & 63)) or
+    # (blocks[i >> 6] >> (i & 63)) & 1 with the same i; a mask that names a cell of another index reads the wrong word
+    from .relax import _all_terms
+    nr = 0
+    for p in crate.fn_paths():
+        an = crate.an(p)
+        seen = set()
+
+        def blocks_load(t):
+            r, li = load_parts(t)
+            if r is None:
+                return None
+            ri = an.region_info.get(r)
+            if ri and ri.get("chain") and ri["chain"][-1] == (AM, "blocks"):
+                return li
+            return None
+
+        def cell_of(idx):
+            if idx is not None and idx[0] == "bin" and idx[1] == "Shr" and idx[3][0] == "const" and idx[3][2] == 6:
+                return idx[2]
+            return None
+
+        def shls(t, out):
+            if isinstance(t, tuple) and t:
+                if t[0] == "bin" and t[1] == "Shl" and t[2][0] == "const" and t[2][2] == 1:
+                    out.append(t)
+                    return
+                for x in t:
+                    if isinstance(x, tuple):
+                        shls(x, out)
+
+        def walk(t):
+            nonlocal nr
+            if not isinstance(t, tuple) or not t or t in seen:
+                return
+            seen.add(t)
+            if t[0] == "bin" and t[1] == "BitAnd":
+                for w, m in ((t[2], t[3]), (t[3], t[2])):
+                    idx = blocks_load(w)
+                    if idx is None:
+                        continue
+                    ms = []
+                    shls(m, ms)
+                    if not ms:
+                        continue
+                    nr += 1
+                    i = cell_of(idx)
+                    good = i is not None and all(x[3] in (("bin", "BitAnd", i, ("const", "usize", 63)),
+                                                          ("bin", "BitAnd", ("const", "usize", 63), i)) for x in ms)
+                    o.check(good, crate.prog.pretty[p], "bit-read", "a word of the bit matrix is masked with the bit of a cell that does not "
+                            "live in that word (cells i and j are in the same word only when i >> 6 == j >> 6)",
+                            crate.prog.fns[p].get("span"))
+            if t[0] == "bin" and t[1] == "Shr":
+                idx = blocks_load(t[2])
+                if idx is not None and t[3][0] != "const":
+                    nr += 1
+                    i = cell_of(idx)
+                    good = i is not None and t[3] in (("bin", "BitAnd", i, ("const", "usize", 63)), ("bin", "BitAnd", ("const", "usize", 63), i))
+                    o.check(good, crate.prog.pretty[p], "bit-read", "a word of the bit matrix is shifted by the bit position of a cell that "
+                            "does not live in that word", crate.prog.fns[p].get("span"))
+            for x in t:
+                if isinstance(x, tuple):
+                    walk(x)
+        for t in _all_terms(an):
+            walk(t)
+    o.instances = n + nr
+    return o.report(floors={"bit-matrix writes": (n, 3), "bit-matrix single-cell reads": (nr, 1)})
+
+
+def _blocks_source(an, t, AM):
+    """region R when t iterates (mutably or not) over the words of the `blocks` of an AdjacencyMatrix at R"""
+    while t and t != "CYCLE" and t[0] == "call" and t[3] and t[1] in (
+            "slice::iter_mut", "slice::iter", "core::ops::deref::DerefMut::deref_mut", "core::ops::deref::Deref::deref",
+            "core::iter::traits::collect::IntoIterator::into_iter", "alloc::vec::Vec::as_mut_slice", "alloc::vec::Vec::as_slice"):
+        t = t[3][0]
+    if t and t != "CYCLE" and t[0] in ("at", "addr"):
+        ri = an.region_info.get(t[1])
+        if ri and ri.get("chain") and ri["chain"][-1] == (AM, "blocks"):
+            return t[1]
+    return None
+
+
+def _iterates_blocks_mut(an, d, AM):
+    if not isinstance(d, tuple) or not d:
+        return False
+    if d[0] == "call" and d[1] == "slice::iter_mut" and _blocks_source(an, d, AM) is not None:
+        return True
+    if d[0] == "call" and d[1] == "core::iter::traits::collect::IntoIterator::into_iter" and d[3] and d[3][0][0] in ("at", "addr") \
+            and _blocks_source(an, d, AM) is not None and not an.region_info[d[3][0][1]].get("imm"):
+        return True
+    if d[0] == "call":
+        return any(_iterates_blocks_mut(an, x, AM) for x in d[3] if isinstance(x, tuple))
+    return False
+
+
+def _equal_orders_known(an, fx, b, AM):
+    """a check that two matrices have the same order dominates b"""
+    def is_order(t):
+        if t[0] == "mem" and t[3] is None or t[0] == "mem":
+            ri = an.region_info.get(t[1])
+            return bool(ri and ri.get("chain") and ri["chain"][-1] == (AM, "order"))
+        return False
+
+    def f(rel):
+        return any(a[0] == "eq" and a[1] != a[2] and is_order(a[1]) and is_order(a[2]) and a[1][1] != a[2][1] for a in rel.w)
+    return fx.holds(b, f)
+
+
+def _zip_word_or(an, fx, ev, d, path, AM):
+    """the store is `*w |= *o` where (w, o) is the item of blocks_a.iter_mut().zip(blocks_b) and order_a == order_b is known"""
+    v = ev["val"]
+    if not (d[0] == "call" and d[1].endswith("Iterator::zip") and len(d[3]) == 2 and len(path) == 1 and path[0] in (0, 1)):
+        return False
+    if _blocks_source(an, d[3][0], AM) is None or _blocks_source(an, d[3][1], AM) is None:
+        return False
+    if not (v[0] == "bin" and v[1] == "BitOr"):
+        return False
+    item = ev["addr"][1]
+    other = ("field", item, str(1 - path[0]))
+    ok = False
+    for old, w in ((v[2], v[3]), (v[3], v[2])):
+        if old[0] == "mem" and old[3] == ev["addr"] and w[0] == "mem" and w[3] == other:
+            ok = True
+    return ok and _equal_orders_known(an, fx, ev["b"], AM)
+
+
+def _word_or_under_equal_orders(crate, an, ev, R, idx):
+    """blocks_a[k] = blocks_a[k] | blocks_b[k] under a check that the two matrices have equal orders"""
+    from .schema import load_parts
+    AM = "graaf::repr::adjacency_matrix::AdjacencyMatrix"
+    v = ev["val"]
+    if not (v[0] == "bin" and v[1] == "BitOr"):
+        return False
+    fx = crate.fx(an.path)
+    for old, w in ((v[2], v[3]), (v[3], v[2])):
+        r1, i1 = load_parts(old)
+        r2, i2 = load_parts(w)
+        if r1 == R and i1 == idx and i2 == idx and r2 is not None and r2 != R:
+            ri = an.region_info.get(r2)
+            if ri and ri.get("chain") and ri["chain"][-1] == (AM, "blocks"):
+                return _equal_orders_known(an, fx, ev["b"], AM)
+    return False
 
 
 def rule_encaps(crate, prop, tier):
